@@ -40,15 +40,18 @@ func runModelScenario(d *drv.Driver, seed int64, stats map[string]int) (problem 
 		}
 	}()
 	settle := func() {
-		// nothing moves any more: no new completion for a while
+		// nothing moves any more: every client that has not completed is waiting again (captured), and no
+		// completion has arrived for a while (a loaded machine can take long to schedule a woken client)
 		quiet := 0
-		for i := 0; i < 200 && quiet < 3; i++ {
+		for i := 0; i < 400 && quiet < 4; i++ {
 			time.Sleep(3 * time.Millisecond)
 			moved := false
 			for _, w := range ws {
 				if !w.done {
 					if _, ok := get(w.ch, 0); ok {
 						w.done, moved = true, true
+					} else if !w.cl.IsBlocked() {
+						moved = true // in motion: woken, or not yet waiting
 					}
 				}
 			}
@@ -135,10 +138,11 @@ func runModelScenario(d *drv.Driver, seed int64, stats map[string]int) (problem 
 				blocked = append(blocked, fmt.Sprint(i))
 			}
 		}
-		got := "len=" + strings.Join(lens, ",") + " blocked=" + strings.Join(blocked, ",")
-		want := d.MustAsk("MW 0,1,2 " + strings.Join(acts, " "))
-		if got != want {
-			return fmt.Sprintf("after these actions the implementation shows %q, the model %q (list lengths per key; clients still blocked)", got, want), steps
+		got := "len=" + strings.Join(lens, ",") + ";blocked=" + strings.Join(blocked, ",")
+		acts[len(acts)-1] += "~" + got
+		// the model follows every schedule of the clients in motion that explains what was observed so far
+		if ans := d.MustAsk("MWO 0,1,2 " + strings.Join(acts, " ")); ans != "ok" {
+			return fmt.Sprintf("the implementation shows %q (list lengths per key; clients still blocked) and no schedule of the model explains it: %s", got, ans), steps
 		}
 	}
 	stats["model_scenarios"]++
